@@ -159,6 +159,10 @@ func init() {
 				}
 				wg.Wait()
 				quiesce()
+				if c.P("seshclose", "0") == "1" {
+					r.cli.Close()
+					quiesce()
+				}
 
 				frames, err := decodeTap(r.net, "a>b", method)
 				if err != nil {
@@ -172,14 +176,15 @@ func init() {
 				seen := map[ss]int{}
 				per := map[uint32][]vref.RefFrame{}
 				for i, f := range frames {
-					if f.Closing == closingSession {
-						continue
-					}
+					// the session-closing notice is a message under the same key as well: its (id, seq) counts
 					k := ss{f.StreamID, f.Seq}
 					if j, dup := seen[k]; dup {
 						vrt.Fail("unique-seq", "messages %d and %d both carry (stream %d, seq %d): nonce reuse", j, i, f.StreamID, f.Seq)
 					}
 					seen[k] = i
+					if f.Closing == closingSession {
+						continue
+					}
 					per[f.StreamID] = append(per[f.StreamID], f)
 				}
 				// (2) per stream: numbers 0..k-1 without gaps, unless a send failed (then a number may be burnt)
@@ -261,6 +266,7 @@ func init() {
 			{Scenario: "mux.seq", Params: vx.P("ops", "w257,r256+1"), Bound: b(1, 2), Weight: 9},
 			{Scenario: "mux.seq", Params: vx.P("ops", "w257,r256+1", "mem", "0"), Bound: b(2, 3), Weight: 8},
 			{Scenario: "mux.seq", Params: vx.P("ops", "w257,c", "mem", "0"), Bound: b(2, 3), Weight: 6},
+			{Scenario: "mux.seq", Params: vx.P("ops", "w1", "mem", "0", "seshclose", "1", "second", "1", "conns", "1"), Bound: b(1, 2), Weight: 5},
 			{Scenario: "mux.seq", Params: vx.P("ops", "w1", "openers", "3", "conns", "1", "mem", "0"), Bound: b(1, 2), Weight: 6},
 			{Scenario: "mux.seq", Params: vx.P("ops", "r256+256,c", "mem", "0"), Bound: b(2, 3), Weight: 6},
 			{Scenario: "mux.seq", Params: vx.P("ops", "r200,c"), Bound: b(1, 2), Weight: 6},
